@@ -23,9 +23,10 @@ VARIABLES l,          \* next line of the trace
           a_rerunbad, \* after a restart an in-flight task was not run again by the next pass
           a_lostbad,  \* a restart lost or changed persisted task state
           needRerun,  \* tasks that the next pass has to re-run (set by Restart)
-          a_stuck     \* the driver's fair drain phase did not reach quiescence (change does not settle)
+          a_stuck,    \* the driver's fair drain phase did not reach quiescence (change does not settle)
+          a_stopbad   \* a handler error returned while the runner was stopping failed the task (must be retried)
 
-tvars == <<vars, l, a_c02bad, a_revbad, a_aggbad, a_rdybad, a_redobad, a_rerunbad, a_lostbad, needRerun, a_stuck>>
+tvars == <<vars, l, a_c02bad, a_revbad, a_aggbad, a_rdybad, a_redobad, a_rerunbad, a_lostbad, needRerun, a_stuck, a_stopbad>>
 
 Trace == ndJsonDeserialize(IOEnv.VERIF_TRACE)
 Precise == IOEnv.VERIF_MODE = "precise"
@@ -82,7 +83,7 @@ Oracles ==
 NoStartOracles ==
   /\ a_c02bad' = a_c02bad /\ a_revbad' = a_revbad /\ a_redobad' = a_redobad
   /\ a_rerunbad' = a_rerunbad /\ a_lostbad' = a_lostbad /\ needRerun' = needRerun
-  /\ a_stuck' = a_stuck
+  /\ a_stuck' = a_stuck /\ a_stopbad' = a_stopbad
 
 \* ---- permissive versions of the history updates ---------------------------
 FinishMon(t, res) ==
@@ -122,13 +123,17 @@ TEnsure ==
   /\ a_redobad' = (a_redobad \/ \E i \in DOMAIN E.starts : ~StartRedoOK(E.starts[i]))
   /\ a_rerunbad' = (a_rerunbad \/ ~(needRerun \subseteq {E.starts[i].t : i \in DOMAIN E.starts}))
   /\ needRerun' = {}
-  /\ a_lostbad' = a_lostbad /\ a_stuck' = a_stuck
+  /\ a_lostbad' = a_lostbad /\ a_stuck' = a_stuck /\ a_stopbad' = a_stopbad
 
 TFinish ==
   /\ IsEv("Finish")
   /\ IF Precise THEN Finish(E.t, E.res, E.after, E.ws) /\ PostMatches /\ UNCHANGED budget
      ELSE PostMatches /\ FinishMon(E.t, E.res) /\ UNCHANGED <<graphVars, aborted, budget, c02bad, redoBad, panicked>>
-  /\ Oracles /\ NoStartOracles
+  /\ Oracles
+  /\ a_c02bad' = a_c02bad /\ a_revbad' = a_revbad /\ a_redobad' = a_redobad
+  /\ a_rerunbad' = a_rerunbad /\ a_lostbad' = a_lostbad /\ needRerun' = needRerun /\ a_stuck' = a_stuck
+  \* shutting down: "errors might be due to cancellations, to be safe retry" - the task must not fail
+  /\ a_stopbad' = (a_stopbad \/ (stopped /\ E.res = "err" /\ PostStatus[E.t] = "Error"))
 
 TAbort ==
   /\ IsEv("Abort")
@@ -166,13 +171,13 @@ TRestart ==
                                  /\ (PostAt[t] = 0 \/ PostAt[t] <= E.st.now)
                                  /\ kind[t] = "neutral"}
   /\ a_c02bad' = a_c02bad /\ a_revbad' = a_revbad /\ a_redobad' = a_redobad /\ a_rerunbad' = a_rerunbad
-  /\ a_stuck' = a_stuck
+  /\ a_stuck' = a_stuck /\ a_stopbad' = a_stopbad
 
 \* the driver's drain phase (fair schedule) did not reach quiescence: the change does not settle
 TStuck ==
   /\ IsEv("Stuck")
   /\ a_stuck' = TRUE
-  /\ UNCHANGED <<vars, a_c02bad, a_revbad, a_aggbad, a_rdybad, a_redobad, a_rerunbad, a_lostbad, needRerun>>
+  /\ UNCHANGED <<vars, a_c02bad, a_revbad, a_aggbad, a_rdybad, a_redobad, a_rerunbad, a_lostbad, needRerun, a_stopbad>>
 
 TNext == TInitEv \/ TEnsure \/ TFinish \/ TAbort \/ TResolveWait \/ TTick \/ TStop \/ TRestart \/ TStuck
 
@@ -189,6 +194,7 @@ TInit ==
   /\ a_redobad = FALSE /\ a_rerunbad = FALSE /\ a_lostbad = FALSE
   /\ needRerun = {}
   /\ a_stuck = FALSE
+  /\ a_stopbad = FALSE
 
 TSpec == TInit /\ [][TNext]_tvars
 
@@ -198,7 +204,7 @@ Accepted == TLCGet("stats").diameter - 1 = Len(Trace)
 A_C01 == C01_SettlesError /\ C01_WaitersHeld /\ C01_LaneReverted /\ C01_HealthyComplete /\ C01_AllLanesFailed /\ ~a_revbad
 A_C02 == ~a_c02bad
 A_C03 == ~a_aggbad /\ ~a_rdybad /\ ~a_stuck
-A_C04 == ~a_redobad /\ ~a_rerunbad /\ ~a_lostbad
+A_C04 == ~a_redobad /\ ~a_rerunbad /\ ~a_lostbad /\ ~a_stopbad
 A_C07 == C07
 \* spec-side monitors stay clean too (precise mode: the spec's own bookkeeping over the real run)
 SpecMon == ~c02bad /\ ~redoBad /\ ~panicked
